@@ -8,6 +8,7 @@ mod common;
 use common::Emitter;
 mod c03;
 mod c15;
+mod compilep;
 mod stages;
 mod store;
 mod tirgen;
@@ -76,6 +77,14 @@ fn main() {
         "C15" => c15::run(&opts, &mut Emitter::new(&mut out, opts.only)),
         "C03" => c03::run(&opts, &mut Emitter::new(&mut out, opts.only), false),
         "C04" => c03::run(&opts, &mut Emitter::new(&mut out, opts.only), true),
+        "C02" | "C08" | "C09" | "C10" => {
+            compilep::run(&opts, &mut Emitter::new(&mut out, opts.only), prop.as_str())
+        }
+        "C14" => {
+            let mut em = Emitter::new(&mut out, opts.only);
+            compilep::run(&opts, &mut em, "C14");
+            stages::run_c14(&opts, &mut em);
+        }
         "C06" => stages::run_c06(&opts, &mut Emitter::new(&mut out, opts.only)),
         "C07" => stages::run_c07(&opts, &mut Emitter::new(&mut out, opts.only)),
         _ => usage(),
